@@ -17,7 +17,7 @@ from typing import Any, Dict, List, Optional, Tuple
 from .core import Rng, zlit
 
 VARS = ["x", "y", "z"]
-ATTR_ID = {"a": 0, "b": 1, "items": 2, "kids": 3, "child": 4, "k": 5}
+ATTR_ID = {"a": 0, "b": 1, "items": 2, "kids": 3, "child": 4, "k": 5, "pair[0]": 6, "pair[1]": 7, "geta()": 8}
 OPS = {"==": "OpEq", "!=": "OpNe", "<": "OpLt", "<=": "OpLe", ">": "OpGt", ">=": "OpGe"}
 PYOPS = {"==": operator.eq, "!=": operator.ne, "<": operator.lt, "<=": operator.le, ">": operator.gt, ">=": operator.ge}
 
@@ -28,6 +28,10 @@ class P:
     def __init__(self, oid, a, b, items):
         self.oid, self.a, self.b, self.items = oid, a, b, list(items)
         self.kids, self.child = [], self
+        self.pair = (a, b)
+
+    def geta(self):
+        return self.a
 
     def __repr__(self):
         return f"P{self.oid}"
@@ -56,6 +60,10 @@ def otype(case, e) -> str:
         return "ints" if isinstance(e[1], list) else "int"
     if k == "var":
         return case["vars"][e[1]]
+    if k in ("idx", "call"):
+        if otype(case, e[1]) == "P":
+            return "int"
+        raise ValueError(f"ill-typed operand {e}")
     if k == "attr":
         t = otype(case, e[1])
         a = e[2]
@@ -69,7 +77,7 @@ def otype(case, e) -> str:
 def opnd_var(e) -> Optional[str]:
     if e[0] == "var":
         return e[1]
-    if e[0] == "attr":
+    if e[0] in ("attr", "idx", "call"):
         return opnd_var(e[1])
     return None
 
@@ -281,6 +289,10 @@ def g_opnd(case, e) -> str:
         return f"(OLit ({g_val(case, e[1], otype(case, e))}))"
     if k == "var":
         return f"(OVar {VARS.index(e[1])}%nat)"
+    if k == "idx":       # e.pair[i]: Index(Attribute) -- a function of the value, modelled as one attribute step
+        return f"(OAttr {g_opnd(case, e[1])} {ATTR_ID['pair[%d]' % e[2]]}%nat)"
+    if k == "call":      # e.geta(): Call(Attribute)
+        return f"(OAttr {g_opnd(case, e[1])} {ATTR_ID['geta()']}%nat)"
     return f"(OAttr {g_opnd(case, e[1])} {ATTR_ID[e[2]]}%nat)"
 
 
@@ -309,7 +321,8 @@ def g_case(case) -> str:
         if o["cls"] == "P":
             attrs = [(0, f"VI {zlit(o['a'])}"), (1, f"VI {zlit(o['b'])}"),
                      (2, "VLI [" + "; ".join(zlit(z) for z in o["items"]) + "]"),
-                     (3, "VLO [" + "; ".join(str(z) for z in o["kids"]) + "]"), (4, f"VO {o['child']}")]
+                     (3, "VLO [" + "; ".join(str(z) for z in o["kids"]) + "]"), (4, f"VO {o['child']}"),
+                     (6, f"VI {zlit(o['a'])}"), (7, f"VI {zlit(o['b'])}"), (8, f"VI {zlit(o['a'])}")]
         else:
             attrs = [(0, f"VI {zlit(o['a'])}"), (5, f"VI {zlit(o['k'])}")]
         objs.append(f"({o['id']}, {zlit(o['key'])}, [" + "; ".join(f"({a}%nat, {v})" for a, v in attrs) + "])")
@@ -380,6 +393,10 @@ def build_query(case, objs, quantifier="an", **qkw):
             return list(e[1]) if isinstance(e[1], list) else e[1]
         if k == "var":
             return vs[e[1]]
+        if k == "idx":
+            return getattr(opnd(e[1]), "pair")[e[2]]
+        if k == "call":
+            return opnd(e[1]).geta()
         return getattr(opnd(e[1]), e[2])
 
     def cond(c):
@@ -449,7 +466,7 @@ def gen_world(rng: Rng, twins: bool = False) -> List[dict]:
     return objs
 
 
-def gen_case(rng: Rng, profile: str = "c01") -> dict:
+def gen_case(rng: Rng, profile: str = "c01", extras: bool = False) -> dict:
     """profile c01: everything; c02: biased to the conjunctive / else-if fragment with duplicate-free domains"""
     twins = profile == "quant" and rng.chance(0.35)
     objs = gen_world(rng, twins)
@@ -490,6 +507,9 @@ def gen_case(rng: Rng, profile: str = "c01") -> dict:
             return ["attr", ["var", nm], rng.choice(["a", "k"])]
         if rng.chance(0.2):
             return ["attr", ["attr", ["var", nm], "child"], rng.choice(["a", "b"])]
+        if extras and rng.chance(0.12):      # indexing and method calls on attribute values
+            base = ["var", nm] if rng.chance(0.7) else ["attr", ["var", nm], "child"]
+            return ["idx", base, rng.randint(0, 1)] if rng.chance(0.5) else ["call", base]
         return ["attr", ["var", nm], rng.choice(["a", "b"])]
 
     def atom():
